@@ -266,10 +266,14 @@ Qed.
 Variable T0 : Z.
 Hypothesis Hmeth : cf_method cfg = MMeek.
 
+(* the quota the rule prescribes for v raw units of votes still credited: v / (seats + 1), truncated, plus one unit
+   in the last place unless the arithmetic is exact *)
+Definition qf (v : Z) : Z := v * S / ((cf_nseats cfg + 1) * S) + (if exact A then 0 else R (epsilon A)).
 Definition iter_ok (a : action A) : Prop :=
   a_tag a = TIterate ->
   match a_snap a with
-  | Some sn => R (as_votes sn) + match as_nt sn with Some x => R x | None => 0 end = T0
+  | Some sn => R (as_votes sn) + match as_nt sn with Some x => R x | None => 0 end = T0 /\
+               R (as_quota sn) = qf (R (as_votes sn))
   | None => True
   end.
 Record MI (s : est) : Prop := {
@@ -280,6 +284,8 @@ Record MI (s : est) : Prop := {
   mi_hist : Forall iter_ok (actions s)
 }.
 Definition CV (s : est) : Prop := tot (cands s) + R (residual s) = T0.
+Definition QV (s : est) : Prop := R (quota s) = qf (tot (cands s)).
+Definition CVQ (s : est) : Prop := CV s /\ QV s.
 
 Lemma nonhe_tot_zero (l : list cand) : (forall c, In c l -> is_he c = false -> R (cvote c) = 0) -> nonhe_tot l = 0.
 Proof.
@@ -328,22 +334,32 @@ Proof.
   rewrite (H c (or_introl eq_refl)); [lia|]. unfold is_he, in_state in *. destruct (cst c); cbn in *; congruence.
 Qed.
 
-Lemma mi_log t m (s : est) : (t = TIterate -> CV s) -> MI s -> MI (log_action A cfg t m s).
+Lemma mi_log t m (s : est) : (t = TIterate -> CVQ s) -> MI s -> MI (log_action A cfg t m s).
 Proof.
   intros Hcv [M1 M2 M3 M4 M5]. unfold log_action. destruct (is_log t) eqn:El.
   - constructor; cbn [cands ballots eballots actions set_actions]; try assumption. constructor; [|exact M5]. unfold iter_ok. cbn [a_tag a_snap]. auto.
   - set (s1 := if is_round t then set_rounds s (rounds s ++ [cands s]) else s).
-    assert (E1: cands s1 = cands s /\ ballots s1 = ballots s /\ eballots s1 = eballots s /\ actions s1 = actions s /\ residual s1 = residual s)
+    assert (E1: cands s1 = cands s /\ ballots s1 = ballots s /\ eballots s1 = eballots s /\ actions s1 = actions s /\ residual s1 = residual s /\ quota s1 = quota s)
       by (unfold s1; destruct (is_round t); repeat split).
-    destruct E1 as (E1 & E2 & E3 & E4 & E5).
+    destruct E1 as (E1 & E2 & E3 & E4 & E5 & E6).
     constructor; cbn [cands ballots eballots actions set_actions]; rewrite ?E1, ?E2, ?E3, ?E4; try assumption.
-    constructor; [|exact M5]. unfold iter_ok. cbn [a_tag a_snap]. intros Et. unfold snap_of, eligibles. cbn [as_votes as_nt]. rewrite Hmeth, E1, E5.
+    constructor; [|exact M5]. unfold iter_ok. cbn [a_tag a_snap]. intros Et. unfold snap_of, eligibles. cbn [as_votes as_nt as_quota]. rewrite Hmeth, E1, E5, E6.
     rewrite r_vsum'. rewrite (elig_tot _ M2). exact (Hcv Et).
 Qed.
 Lemma cands_log' t m (s : est) : cands (log_action A cfg t m s) = cands s /\ residual (log_action A cfg t m s) = residual s.
 Proof. unfold log_action. destruct (is_log t); [split; reflexivity|]. destruct (is_round t); split; reflexivity. Qed.
 Lemma cv_log t m (s : est) : CV s -> CV (log_action A cfg t m s).
 Proof. intros H. destruct (cands_log' t m s) as [E1 E2]. apply (cv_same s); assumption. Qed.
+Lemma qv_same (s s' : est) : cands s' = cands s -> quota s' = quota s -> QV s -> QV s'.
+Proof. intros E1 E2 H. unfold QV in *. rewrite E1, E2. exact H. Qed.
+Lemma quota_log t m (s : est) : quota (log_action A cfg t m s) = quota s.
+Proof. unfold log_action. destruct (is_log t); [reflexivity|]. destruct (is_round t); reflexivity. Qed.
+Lemma qv_log t m (s : est) : QV s -> QV (log_action A cfg t m s).
+Proof. intros H. apply (qv_same s); [exact (proj1 (cands_log' t m s))|apply quota_log|exact H]. Qed.
+Lemma cvq_same (s s' : est) : cands s' = cands s -> residual s' = residual s -> quota s' = quota s -> CVQ s -> CVQ s'.
+Proof. intros E1 E2 E3 [V Q']. split; [exact (cv_same s s' E1 E2 V)|exact (qv_same s s' E1 E3 Q')]. Qed.
+Lemma cvq_log t m (s : est) : CVQ s -> CVQ (log_action A cfg t m s).
+Proof. intros [V Q']. split; [apply cv_log; exact V|apply qv_log; exact Q']. Qed.
 
 
 (* ---- status writers and the keep-factor update ---- *)
@@ -478,8 +494,41 @@ Proof. intros M. unfold set_quota_r. destruct q; [revert M; apply mi_same; refle
 Lemma cv_set_quota_r (s : est) q : CV s -> CV (set_quota_r A s q).
 Proof. intros M. unfold set_quota_r. destruct q; [revert M; apply cv_same; reflexivity|apply cv_set_crash; exact M]. Qed.
 
+Lemma qv_upd_same (s : est) i f : (forall c, cvote (f c) = cvote c) -> QV s -> QV (upd A s i f).
+Proof. intros Hf H. unfold QV, upd in *. cbn [cands quota set_cands]. rewrite tot_upd_votes_same; assumption. Qed.
+Lemma qv_elect i m p (s : est) : QV s -> QV (elect A cfg i m p s).
+Proof.
+  intros H. unfold elect. destruct (find_cand A (cands s) i); [|revert H; apply qv_same; reflexivity].
+  apply qv_log. apply qv_upd_same; [reflexivity|exact H].
+Qed.
+Lemma qv_fold {X} (g : est -> X -> est) (l : list X) : (forall s x, QV s -> QV (g s x)) -> forall s, QV s -> QV (fold_left g l s).
+Proof. intros Hg. induction l as [|x l IH]; intros s Hs; cbn [fold_left]; [exact Hs|]. apply IH, Hg, Hs. Qed.
+
+(* the votes still credited: hopeful and elected candidates hold everything *)
+Lemma he_tot (l : list cand) : (forall c, In c l -> is_he c = false -> R (cvote c) = 0) ->
+  fold_right (fun x acc => R x + acc) 0 (map (@cvote A) (filter (in_state A Hopeful) l ++ filter (in_state A Elected) l)) = tot l.
+Proof.
+  unfold MeekDist.tot. intros Hz. rewrite map_app.
+  assert (Happ: forall a b : list (T A), fold_right (fun x acc => R x + acc) 0 (a ++ b) =
+                 fold_right (fun x acc => R x + acc) 0 a + fold_right (fun x acc => R x + acc) 0 b).
+  { induction a as [|x a IH]; intros b; cbn [app fold_right]; [lia|]. rewrite IH. lia. }
+  rewrite Happ. induction l as [|c l IH]; [reflexivity|]. cbn [filter fold_right].
+  specialize (IH (fun c' Hc' => Hz c' (or_intror Hc'))).
+  destruct (in_state A Hopeful c) eqn:E1; destruct (in_state A Elected c) eqn:E2; cbn [map fold_right]; try lia.
+  - unfold in_state in *. destruct (cst c); cbn in *; discriminate.
+  - rewrite (Hz c (or_introl eq_refl)); [lia|]. unfold is_he. rewrite E1, E2. reflexivity.
+Qed.
+
+Lemma meek_quota_value (s : est) q : meek_quota A cfg s = Ok q -> R q = qf (R (votes s)).
+Proof.
+  unfold meek_quota, qf. destruct (Z.eq_dec (R (of_int A (cf_nseats cfg + 1))) 0) as [Hz|Hnz].
+  - rewrite (r_divv0 A S ZL _ _ Hz). discriminate.
+  - destruct (r_divv A S ZL (votes s) (of_int A (cf_nseats cfg + 1)) Hnz) as (q0 & E0 & R0). rewrite E0. intros E. inversion E; subst q.
+    rewrite (r_of_int A S ZL) in R0. destruct (exact A); [rewrite R0; lia|rewrite (r_add A S ZL), R0; reflexivity].
+Qed.
+
 Lemma mi_iter_head (s : est) : MI s -> crashed (meek_iter_head A cfg s) = false ->
-  MI (meek_iter_head A cfg s) /\ CV (meek_iter_head A cfg s).
+  MI (meek_iter_head A cfg s) /\ CVQ (meek_iter_head A cfg s).
 Proof.
   intros M. unfold meek_iter_head. cbv zeta. set (s1 := distribute_votes A cfg s).
   destruct (crashed s1) eqn:C1; [congruence|]. intros Hc.
@@ -487,15 +536,22 @@ Proof.
   set (s2 := set_votes s1 _) in *.
   assert (M2: MI s2) by (revert M1; apply mi_same; reflexivity).
   assert (V2: CV s2) by (revert V1'; apply cv_same; reflexivity).
+  assert (Hv2: R (votes s2) = tot (cands s2)).
+  { unfold s2. cbn [votes cands set_votes]. rewrite r_vsum'. unfold he_cands, hopefuls, electeds. apply he_tot. exact (mi_z0 _ M1). }
   set (s3 := set_quota_r A s2 _) in *.
   assert (M3: MI s3) by (apply mi_set_quota_r; exact M2).
   assert (V3: CV s3) by (apply cv_set_quota_r; exact V2).
   destruct (crashed s3) eqn:C3; [congruence|].
-  split.
+  assert (Q3: QV s3).
+  { unfold s3, set_quota_r in *. destruct (meek_quota A cfg s2) as [q|e] eqn:Eq; [|rewrite sticky_set_crash' in C3; discriminate].
+    unfold QV. cbn [quota cands set_quota]. rewrite (meek_quota_value s2 q Eq), Hv2. reflexivity. }
+  split; [|split].
   - match goal with |- MI (set_surplus ?x _) => apply (mi_same x); [reflexivity|reflexivity|reflexivity|reflexivity|] end.
     apply mi_fold; [|exact M3]. intros t c Mt. apply (mi_same (elect A cfg (cid c) "Elect" false t)); [reflexivity|reflexivity|reflexivity|reflexivity|]. apply mi_elect. exact Mt.
   - match goal with |- CV (set_surplus ?x _) => apply (cv_same x); [reflexivity|reflexivity|] end.
     apply cv_fold; [|exact V3]. intros t c Mt. apply (cv_same (elect A cfg (cid c) "Elect" false t)); [reflexivity|reflexivity|]. apply cv_elect. exact Mt.
+  - match goal with |- QV (set_surplus ?x _) => apply (qv_same x); [reflexivity|reflexivity|] end.
+    apply qv_fold; [|exact Q3]. intros t c Mt. apply (qv_same (elect A cfg (cid c) "Elect" false t)); [reflexivity|reflexivity|]. apply qv_elect. exact Mt.
 Qed.
 
 Lemma mi_break_tie fmt tied (s : est) : MI s -> MI (fst (break_tie A cfg fmt tied s)).
@@ -533,11 +589,11 @@ Qed.
 
 (* ---- the iteration and the rule as Hoare triples ---- *)
 Notation T3 := (triple est (@crashed A)).
-Definition MV (s : est) : Prop := MI s /\ CV s.
+Definition MV (s : est) : Prop := MI s /\ CVQ s.
 
 Lemma mv_same (s s' : est) : cands s' = cands s -> ballots s' = ballots s -> eballots s' = eballots s -> actions s' = actions s ->
-  residual s' = residual s -> MV s -> MV s'.
-Proof. intros E1 E2 E3 E4 E5 [M V]. split; [exact (mi_same s s' E1 E2 E3 E4 M)|exact (cv_same s s' E1 E5 V)]. Qed.
+  residual s' = residual s -> quota s' = quota s -> MV s -> MV s'.
+Proof. intros E1 E2 E3 E4 E5 E6 [M V]. split; [exact (mi_same s s' E1 E2 E3 E4 M)|exact (cvq_same s s' E1 E5 E6 V)]. Qed.
 
 Lemma meek_iterate_triple (Qb Qc : est -> Prop) : T3 MI (meek_iterate A cfg) MV Qb Qc.
 Proof.
@@ -558,8 +614,8 @@ Proof.
     { apply t_ite; [|apply t_skip'; intros s [H _]; exact H].
       eapply t_seq with (M := MV).
       { apply t_do. intros s [[M V] _].
-        match goal with |- MV (set_status ?x _) => apply (mv_same x); [reflexivity|reflexivity|reflexivity|reflexivity|reflexivity|] end.
-        split; [apply mi_log; [discriminate|exact M]|apply cv_log; exact V]. }
+        match goal with |- MV (set_status ?x _) => apply (mv_same x); [reflexivity|reflexivity|reflexivity|reflexivity|reflexivity|reflexivity|] end.
+        split; [apply mi_log; [discriminate|exact M]|apply cvq_log; exact V]. }
       apply t_break'. auto. }
     eapply t_seq with (M := MV).
     { apply t_do. intros s H. revert H. apply mv_same; reflexivity. }
